@@ -25,21 +25,21 @@ type Violation struct {
 
 // Result is what a harness check hands back to bin/check.
 type Result struct {
-	mu          sync.Mutex
-	Property    string                 `json:"property"`
-	Tier        string                 `json:"tier"`
-	Seed        int64                  `json:"seed"`
-	Evaluations int                    `json:"evaluations"`
-	Nontrivial  int                    `json:"distinct_nontrivial"`
-	Rule        string                 `json:"rule"`
-	Samples     []interface{}          `json:"samples"`
-	Violations  []Violation            `json:"violations"`
-	Dist        map[string]int         `json:"distribution"`
-	Extra       map[string]interface{} `json:"extra"`
-	Exhaustive  bool                   `json:"exhaustive"`
-	TracesVsImpl int                   `json:"traces_validated_against_impl"`
-	seen        map[string]bool
-	perSig      map[string]int
+	mu           sync.Mutex
+	Property     string                 `json:"property"`
+	Tier         string                 `json:"tier"`
+	Seed         int64                  `json:"seed"`
+	Evaluations  int                    `json:"evaluations"`
+	Nontrivial   int                    `json:"distinct_nontrivial"`
+	Rule         string                 `json:"rule"`
+	Samples      []interface{}          `json:"samples"`
+	Violations   []Violation            `json:"violations"`
+	Dist         map[string]int         `json:"distribution"`
+	Extra        map[string]interface{} `json:"extra"`
+	Exhaustive   bool                   `json:"exhaustive"`
+	TracesVsImpl int                    `json:"traces_validated_against_impl"`
+	seen         map[string]bool
+	perSig       map[string]int
 }
 
 func newResult(prop, tier string, seed int64) *Result {
@@ -169,7 +169,7 @@ func (d *Driver) Close() {
 
 // DriverPool runs several driver processes for parallel checks.
 type DriverPool struct {
-	ch chan *Driver
+	ch  chan *Driver
 	all []*Driver
 }
 
